@@ -159,7 +159,10 @@ fn selftest_determinism(opts: &Opts, seeds: u64) -> i32 {
         ("C08-histories", c08::digest),
         ("C11-histories", c11::digest),
         ("C20-histories+shadowed-runs", c20::digest),
+        ("C18-volume-schedules", c18::heavy_digest),
     ] {
+        // volume runs are seconds each: a handful of them
+        let seeds = if name == "C18-volume-schedules" { (seeds / 250).clamp(3, 8) } else { seeds };
         let a = f(opts.seed, seeds, opts.workers);
         let b = f(opts.seed, seeds, 3);
         let c = f(opts.seed, seeds, opts.workers);
